@@ -1290,6 +1290,10 @@ func (e *env) startInflight(early bool) {
 			}
 		case CSendTx:
 			e.callSendTx(e.makeTx())
+		case CCFLoop:
+			e.loopGetCFilter()
+		case CBlockLoop:
+			e.loopGetBlock()
 		case CRescanErr:
 			switch p.State {
 			case StRescanCU, StRescanRT, StRescanCur:
